@@ -35,7 +35,7 @@ import (
 // real encoders and decoders.
 
 func c14KEMessage(tp *simcore.Tape, real bool, prov *ntske.Provider) ([]byte, string) {
-	if real {
+	if real && server.VerifNewNTSKEMsg != nil {
 		data := ntske.Data{C2sKey: make([]byte, 32), S2cKey: make([]byte, 32)}
 		rand.Read(data.C2sKey)
 		rand.Read(data.S2cKey)
